@@ -46,6 +46,14 @@ Proof.
   simpl. rewrite (Hcc lvl (le_n _)). apply IH. intros l Hl. apply Hcc. lia.
 Qed.
 
+(** ... and only at the levels below [lvl + cnt] *)
+Lemma cmerge_ext_range : forall cnt lvl c0 c c',
+  (forall l, lvl <= l < lvl + cnt -> c l = c' l) -> cmerge lvl cnt c0 c = cmerge lvl cnt c0 c'.
+Proof.
+  induction cnt as [|k IH]; intros lvl c0 c c' Hcc; [reflexivity|].
+  simpl. rewrite (Hcc lvl) by lia. apply IH. intros l Hl. apply Hcc. lia.
+Qed.
+
 Lemma ctrunc_spec : forall n c l, ctrunc n c l = if l <? n then c l else 0.
 Proof. intros n c l. unfold ctrunc. rewrite cmerge_spec. reflexivity. Qed.
 
